@@ -196,7 +196,7 @@ def bookkeeping(run, rng):
         for chunk, out in ex.map(work, jobs):
             for j, (key, rp, eq, spec, nt) in enumerate(chunk):
                 run.case({"key": key, **{k: v for k, v in rp.items() if k != "state"}, "h": hash(str(rp))}, nontrivial=nt)
-                if len(run.samples) < 4 and nt:
+                if len(run.samples) < 5 and nt and (rp.get("traced", [0]) != sorted(rp.get("traced", [0])) or key.startswith("schmidt")):
                     run.sample({"function": key, **{k: v for k, v in rp.items() if k not in ("state", "rho", "sigma")}})
                 if out is None:
                     run.find(f"coq:{key}", "generated Coq file did not compile", rp, concrete=False)
@@ -438,12 +438,12 @@ def spectral(run, rng, T):
         T.check("fidelity:pure_shortcut_vs_definition", close(qi.fidelity(P.copy(), sig.copy()), np.real(np.vdot(psi, sig @ psi)), 1e-8), "<psi|sigma|psi>")
         T.check("fidelity:statevectors", close(qi.fidelity(psi.copy(), phi.copy()), abs(np.vdot(psi, phi)) ** 2, 1e-9), "|<psi|phi>|^2")
         # boundary of the purity shortcut: slightly mixed state against the general formula
-        lam = 1e-6
+        lam = 1e-7      # just beyond the purity threshold 1e-8 of the shortcut; Uhlmann fidelity moves by O(sqrt(lam))
         Pm = (1 - lam) * P + lam * np.eye(d) / d
         fm, fp = qi.fidelity(Pm.copy(), sig.copy()), qi.fidelity(P.copy(), sig.copy())
-        T.check("fidelity:mixed_states:continuity_at_pure", close(fm, fp, 1e-4),
+        T.check("fidelity:mixed_states:continuity_at_pure", close(fm, fp, 5e-3),
                 f"fidelity is discontinuous at the pure-state shortcut: F(psi, sigma) = {fp} (shortcut tr(rho sigma)) but for "
-                f"rho_l = (1-l)|psi><psi| + l I/d, l=1e-6, the general branch returns {fm} = sqrt of it: the mixed-state branch returns "
+                f"rho_l = (1-l)|psi><psi| + l I/d, l=1e-7, the general branch returns {fm} = sqrt of it: the mixed-state branch returns "
                 "tr sqrt(sqrt(rho) sigma sqrt(rho)) without squaring, although the docstring defines F = tr^2(...)", {"d": d, "seed": seed})
         want = sum(math.sqrt(x * y) for x, y in zip(p, q)) ** 2
         got = qi.fidelity(D.copy(), E.copy())
